@@ -1,7 +1,6 @@
 package core
 
 import (
-	"runtime/pprof"
 	"encoding/json"
 	"fmt"
 	"os"
@@ -9,6 +8,7 @@ import (
 	"path/filepath"
 	"regexp"
 	"runtime"
+	"runtime/pprof"
 	"sort"
 	"strconv"
 	"strings"
@@ -238,6 +238,38 @@ func ClassifyCrash(stderrPath string, timedOut bool) (kind, sig, excerpt string)
 			if (strings.Contains(bl, "sync.(*RWMutex)") || strings.Contains(bl, "sync.(*Mutex)") || strings.Contains(bl, "[sync.")) &&
 				strings.Contains(bl, "protoc-go-valid/valid.") {
 				return "hang-lib", "hang|" + innermost(), ex
+			}
+		}
+		// any other way of never coming back (a send on a full channel, a receive nobody answers, a select, a
+		// semaphore): a goroutine that has been parked for minutes — the dump says so in its header, a goroutine
+		// that is merely slow on a loaded machine is runnable or was parked a moment ago — and whose innermost frame
+		// outside runtime / sync is a library function
+		for _, bl := range blocks {
+			ls := strings.Split(bl, "\n")
+			if len(ls) < 2 || !strings.Contains(ls[0], " minutes") {
+				continue
+			}
+			blocked := false
+			for _, st := range []string{"[chan send", "[chan receive", "[select", "[semacquire", "[sync."} {
+				if strings.Contains(ls[0], st) {
+					blocked = true
+				}
+			}
+			if !blocked {
+				continue
+			}
+			for _, l := range ls[1:] {
+				if strings.HasPrefix(l, "\t") || strings.HasPrefix(l, "runtime.") || strings.HasPrefix(l, "sync.") || strings.HasPrefix(l, "internal/") || strings.HasPrefix(l, "sync/atomic.") {
+					continue
+				}
+				if strings.HasPrefix(l, "gitee.com/xuesongtao/protoc-go-valid/") {
+					t := strings.TrimPrefix(l, "gitee.com/xuesongtao/protoc-go-valid/")
+					if i := strings.Index(t, "("); i > 0 {
+						t = t[:i]
+					}
+					return "hang-lib", "hang|" + t, ex
+				}
+				break
 			}
 		}
 		return "hang-other", "", ex
